@@ -11,6 +11,13 @@ From PV Require Import Gen.ElfLayouts.
 Open Scope string_scope.
 Open Scope Z_scope.
 
+(* ------------------------------------------------------------------ stream positions *)
+(* the bytes from absolute position [off] on (seek + read to the end): the same list as
+   [skipn (Z.to_nat off) l] (Proofs/C01Proofs.v drop_skipn), computed without building a
+   unary number when the position is far beyond the end *)
+Definition drop (off : Z) (l : list Z) : list Z :=
+  if zlen l <=? off then [] else skipn (Z.to_nat off) l.
+
 (* ------------------------------------------------------------------ containers *)
 (* a field of a parsed construct Container: int, bytes (Array of bytes / padding),
    list of ints, or the name an Enum adapter substituted *)
